@@ -96,6 +96,12 @@ class ContextAdjuster(ast.NodeTransformer):
     self._ctx_override = None
     return self.generic_visit(node)
 
+  def visit_NamedExpr(self, node):
+    # The target of an assignment expression is a store whatever the position
+    # of the expression itself; leave the contexts inside as they are.
+    self._ctx_override = None
+    return self.generic_visit(node)
+
 
 class ReplaceTransformer(ast.NodeTransformer):
   """Replace AST nodes."""
